@@ -20,8 +20,9 @@
         second := {ConsIngress = ingress id, ExpTime = first.ExpTime, MAC over the
         info field as received} ; whole header re-serialized ; resolveLocalDst
         (every error is a discard here).
-    No expiry check, no check that the egress link is up, no validatePktLen
-    (the last one is C08's business). *)
+    Before the split: HdrLen must cover exactly the one-hop path (fix bcd1dfe), then
+    validatePktLen (C08's fix ace0bd3: slow-path request 4/19, which the slow path drops).
+    No expiry check, no check that the egress link is up. *)
 From Coq Require Import List NArith Bool.
 From Scion Require Import Lib.Check Model.Router.
 Import ListNotations.
@@ -115,6 +116,8 @@ Definition process_ohp (p : pkt) : result :=
   | None => BadInput
   | Some (i, h1, h2) =>
     if negb (i_consdir i) then Discard
+    else if negb (p_pay_len p =? p_pay_actual p)
+    then SlowPath (SpScmp ScmpParameterProblem CodeInvalidPacketSize 0) 0 p   (* validatePktLen *)
     else if from0 ing then ohp_out p i h1 h2 else ohp_in p i h1 h2
   end.
 
